@@ -3,6 +3,7 @@ import DaskModel.Model.Sched
 import DaskModel.Model.Callbacks
 import DaskModel.Model.Diagnostics
 import DaskModel.Model.SchedWarm
+import DaskModel.Model.CacheSession
 open Dask
 open Dask.Sched
 
@@ -344,6 +345,33 @@ def hCacheRun : Handler := handler fun args =>
                  SExp.ofNats (r.log.filterMap (fun p => match p.1 with | .pretask k => some k | _ => none))])
   | _ => none
 
+/-- `(cache_session store0 ((nodes results prio nw cs choices evict fails)…))`: a whole session of calls under one Cache
+object (`Model/CacheSession.lean`; the store is threaded by the model) ↦ per call `(outcome result store' fired)` -/
+def hCacheSession : Handler := handler fun args =>
+  match args with
+  | [store0, calls] => do
+    let store0 ← decIntMap store0
+    let items ← calls.toList?
+    let cs ← items.mapM (fun it => match it with
+      | .list [nodes, results, prio, nw, cs, choices, evict, fails] => do
+        let gi ← decNodes nodes
+        let c : Dask.Diag.Call Int :=
+          { cfg := { g := gi.g, results := ← results.toNats?, prio := ← decPrio prio, nw := ← nw.toInt?, cs := ← cs.toInt? },
+            P := mkParams gi (← fails.toNats?), choices := ← choices.toNats?, evict := ← evict.toNats? }
+        pure c
+      | _ => none)
+    pure (.list ((cs.zip (Dask.Diag.session store0 cs)).map (fun cr =>
+      let r := cr.2.1
+      let res : SExp := match r.outcome with
+        | .ok .done => .list (cr.1.cfg.results.map (fun k => match r.final.cache.get? k with
+            | some v => .int v
+            | none => .sym "KeyError"))
+        | _ => .list []
+      .list [encOutcome r.outcome, res,
+             .list ((sortMap cr.2.2).map (fun p => .list [SExp.ofNat p.1, .int p.2])),
+             SExp.ofNats (Dask.Diag.firedKeys r)])))
+  | _ => none
+
 /-- `(warm_plan nodes results cache0)` ↦ `(sound (exec…) (reach…))`: what the theorems of `Props/C01xCache` predict for a run
 with the caller-supplied cache `cache0`: `sound` = every cached key holds the value the graph denotes for it (hypothesis
 `CacheSound`), `exec` = the tasks that are executed (not cached, reachable from the request in the warm graph), `reach` = the
@@ -365,7 +393,7 @@ end SchedDrv
 def table : List (String × Handler) :=
   [("run", SchedDrv.hRun), ("start_state", SchedDrv.hStart), ("finish_task", SchedDrv.hFinish),
    ("release_data", SchedDrv.hRelease), ("denote", SchedDrv.hDenote), ("nested_get", SchedDrv.hNested),
-   ("cbrun", SchedDrv.hCbRun), ("cbexec", SchedDrv.hCbExec), ("prof", SchedDrv.hProf), ("cprof", SchedDrv.hCProf), ("cache_run", SchedDrv.hCacheRun),
+   ("cbrun", SchedDrv.hCbRun), ("cbexec", SchedDrv.hCbExec), ("prof", SchedDrv.hProf), ("cprof", SchedDrv.hCProf), ("cache_run", SchedDrv.hCacheRun), ("cache_session", SchedDrv.hCacheSession),
    ("warm_plan", SchedDrv.hWarmPlan)]
 
 def main : IO Unit := runDriver table
